@@ -332,6 +332,7 @@ class Interp(object):
         self.col_base = {}
         self.entry_writes = []
         self.label_alias = {}
+        self.decided = {}
         from . import lib
         self.lib = lib
 
@@ -367,10 +368,17 @@ class Interp(object):
             return True
         if cond.is_false():
             return False
+        k = cond.key()
+        if k in self.decided:
+            return self.decided[k]
+        nk = (~cond).key()
+        if nk in self.decided:
+            return not self.decided[nk]
         n = len(self.decisions)
         if n < len(self.preset):
             b = self.preset[n]
             self.decisions.append((cond, b, self.loc(node)))
+            self.decided[k] = b
             return b
         raise NeedDecision(cond, self.loc(node))
 
@@ -406,7 +414,7 @@ class Interp(object):
 
     # ---- views -----------------------------------------------------------------------------------
     def read_view(self, v, node=None):
-        base_t = v.base.t
+        base_t = v.base.t if isinstance(v.base, Arr) else self.read_view(v.base, node)
         if v.idx[0] == 'reshape':
             return self.lib.reshape_term(self, base_t, v.idx[1], v.idx[2], node)
         return self.index_term(base_t, v.idx, node)
@@ -570,19 +578,27 @@ class Interp(object):
         return N.transform(x, leaf)
 
     def write_view(self, v, newt, node, how='store'):
+        """in-place write through a (possibly nested) view: the root heap cell changes"""
         base = v.base
+        base_t = base.t if isinstance(base, Arr) else self.read_view(base, node)
         if v.idx[0] == 'entry':
             _, la, lb = v.idx
-            if P.is_pw(base.t) or P.is_pw(newt):
+            if P.is_pw(base_t) or P.is_pw(newt):
                 raise Unsupported('piecewise tensor update', node)
-            base.t = N.fn('upd', base.t, la, lb, newt)
-            self.entry_writes.append({'arr': base, 'pair': (la, lb), 'term': newt,
+            full = N.fn('upd', base_t, la, lb, newt)
+            root = base
+            while isinstance(root, View):
+                root = root.base
+            self.entry_writes.append({'arr': root, 'pair': (la, lb), 'term': newt,
                                       'loc': self.loc(node) if node is not None else None})
         elif v.idx[0] == 'reshape':
             inv = {'unflat': 'flat', 'flat': 'unflat', 'col3': 'uncol3'}[v.idx[1]]
-            base.t = self.lib.reshape_term(self, newt, inv, v.idx[2], node)
+            full = self.lib.reshape_term(self, newt, inv, v.idx[2], node)
         else:
             raise Unsupported('write through view %r' % (v.idx,), node)
+        if isinstance(base, View):
+            return self.write_view(base, full, node, how)
+        base.t = full
         if not base.fresh:
             self.event('write', base.origin, node, via='view', how=how)
 
@@ -956,6 +972,12 @@ class Interp(object):
         if isinstance(it, Types):
             it = self.lib.types_iter(self, it)
             return self.for_labels(st, env, it)
+        if isinstance(it, Obj):
+            m = self.find_method(it, '__iter__')
+            if m is not None and isinstance(m, Native):
+                it2 = self.call(m, [], {}, st)
+                if isinstance(it2, LabelIter):
+                    return self.for_labels(st, env, it2)
         raise Unsupported('iteration over %r' % (it,), st)
 
     def for_labels(self, st, env, it):
@@ -1734,23 +1756,42 @@ class Interp(object):
 
 
 # =============================================================================================
+PAIR_FNS = ('sig', 'usig', 'Ucalc', 'Cl', 'omega', 'cell')
+
+
 def relabel(x, mapping, symmetric=()):
-    """rename type labels inside ent/upd atoms"""
+    """rename type labels (string arguments of fn atoms, and label-named symbols) throughout a term"""
+    if not mapping:
+        return x
+
     def leaf(a):
-        if a[0] == 'fn' and a[1] == 'ent':
-            l1 = mapping.get(a[3], a[3])
-            l2 = mapping.get(a[4], a[4])
-            base = a[2]
-            if isinstance(base, str) and base in symmetric and l1 > l2:
-                l1, l2 = l2, l1
-            return N.NF.atom(('fn', 'ent', base, l1, l2))
         if a[0] == 'sym' and a[1] in mapping:
             return N.sym(mapping[a[1]])
-        if a[0] == 'fn' and a[1] in ('rho', 'dia', 'vol', 'sig', 'lab'):
-            parts = tuple(mapping.get(p, p) if isinstance(p, str) else p for p in a[2:])
-            if a[1] == 'sig':
-                parts = tuple(sorted(parts))
-            return N.NF.atom(('fn', a[1]) + parts)
+        if a[0] == 'fn':
+            name = a[1]
+            args = []
+            for p in a[2:]:
+                if isinstance(p, str):
+                    args.append(mapping.get(p, p))
+                elif N.is_nfkey(p):
+                    args.append(relabel(N.nf_from_key(p), mapping, symmetric))
+                elif isinstance(p, tuple) and p and isinstance(p[0], str):
+                    sub = relabel(N.NF.atom(p), mapping, symmetric)
+                    (m, c), = sub.num.items()
+                    args.append(m[0][0] if sub.is_monomial() and c == 1 and len(m) == 1 and m[0][1] == 1 else sub)
+                else:
+                    args.append(p)
+            if name == 'ent':
+                base, l1, l2 = args[0], args[1], args[2]
+                if isinstance(base, str) and base in symmetric and l1 > l2:
+                    l1, l2 = l2, l1
+                return N.NF.atom(('fn', 'ent', base, l1, l2))
+            if name in PAIR_FNS and len(args) >= 2 and isinstance(args[0], str) and isinstance(args[1], str):
+                l1, l2 = sorted(args[:2])
+                args = [l1, l2] + args[2:]
+            if name in N.FN_TABLE:
+                return N.apply_fn(name, args)
+            return N.fn(name, *args)
         return None
     return N.transform(x, leaf)
 
